@@ -79,7 +79,7 @@ def main():
             for f in demos:
                 shutil.copy(os.path.join(src, f), os.path.join(wt, into, "seed_" + x.lower() + "_" + f))
         tags = "-tags verif" if "verifhook" in "".join(open(os.path.join(src, f)).read() for f in demos) else ""
-        race = "-race" if re.search(r"-race", meta["author_meta"]) and "race" in meta["author_meta"].lower() and "data race" in meta["author_meta"].lower() else ""
+        race = "" if "--no-race" in a else "-race" if re.search(r"-race", meta["author_meta"]) and "race" in meta["author_meta"].lower() and "data race" in meta["author_meta"].lower() else ""
         demo_cmd = f"go test -count=1 {tags} {race} ./SEED/{x}/..."
         if into:
             demo_cmd = f"go test -count=1 {tags} {race} -run 'TestSeed' ./{into}/"
@@ -103,6 +103,28 @@ def main():
         sh(["git", "-C", "/repo", "worktree", "remove", "--force", wt])
         shutil.rmtree(wt, ignore_errors=True)
     os.makedirs(out_dir, exist_ok=True)
+    # keep what earlier runs established: the suite result (when this run skipped it) and the detection history
+    prev_path = os.path.join(out_dir, "meta.json")
+    if os.path.exists(prev_path):
+        try:
+            prev = json.load(open(prev_path))
+        except Exception:
+            prev = {}
+        if "suite_passes_with_change" not in meta and "suite_passes_with_change" in prev:
+            meta["suite_passes_with_change"] = prev["suite_passes_with_change"]
+            meta["ran"] += [r for r in prev.get("ran", []) if "existing suite" in r.get("cmd", "")]
+            meta["verified"] = bool(meta.get("demo_fails_with_change") and meta.get("demo_passes_without_change") and meta["suite_passes_with_change"])
+        meta["history"] = prev.get("history", [])
+        for k in ("suite_note",):
+            if k in prev:
+                meta[k] = prev[k]
+        if prev.get("checks") and not meta["history"]:
+            meta["history"].append({c: dict(detected=v.get("detected"), tier=v.get("tier")) for c, v in prev["checks"].items()} | {"verif_commit": prev.get("verif_commit", "?")})
+    else:
+        meta["history"] = []
+    meta["verif_commit"] = sh(["git", "-C", ROOT, "rev-parse", "--short", "HEAD"])[1].strip()
+    if meta.get("checks"):
+        meta["history"].append({c: dict(detected=v.get("detected"), tier=v.get("tier")) for c, v in meta["checks"].items()} | {"verif_commit": meta["verif_commit"]})
     for f in os.listdir(src):
         p = os.path.join(src, f)
         if os.path.isfile(p) and (f.endswith(".go") or f in ("patch.diff", "meta.txt")):
